@@ -341,10 +341,11 @@ fn finding(out: &mut Out, id: &str, what: &str) {
 }
 
 /// Predicate of the known finding hqr-no-convergence-multiple-eigenvalue, decidable from the input alone:
-/// a small relative perturbation of the matrix (which the solver does handle) has at least three
-/// eigenvalues within 0.05*max|A| of one of them, i.e. the matrix has, to working accuracy, an
-/// eigenvalue of multiplicity >= 3 (Jordan blocks make the shifted QR iteration converge only linearly
-/// and hqr gives up after 30 sweeps).
+/// a small relative perturbation of the matrix (which the solver does handle) has at least two
+/// eigenvalues within 0.05*max|A| of each other, i.e. the matrix has, to working accuracy, a multiple
+/// eigenvalue (Jordan blocks make the shifted QR iteration converge only linearly and hqr gives up after
+/// 30 sweeps).  It is used IN ADDITION to the generator's own record that it built a repeated eigenvalue
+/// with a Jordan block into the matrix ("multiplicity" >= 2 in the replay).
 fn near_multiple_eigenvalue(a: &Mat, f32m: bool) -> bool {
     let nrm = maxabs(a);
     let rels: [f64; 3] = if f32m { [1e-5, 1e-4, 1e-3] } else { [1e-10, 1e-8, 1e-6] };
@@ -353,7 +354,7 @@ fn near_multiple_eigenvalue(a: &Mat, f32m: bool) -> bool {
         let p: Mat = a.iter().map(|r| r.iter().map(|x| x + rel * nrm * rng.uniform(-1.0, 1.0)).collect()).collect();
         if let Ok(r) = run_evd(&narrow(&p, f32m), false, f32m) {
             let n = r.d.len();
-            return (0..n).any(|j| (0..n).filter(|i| (r.d[*i] - r.d[j]).hypot(r.e[*i] - r.e[j]) <= 0.05 * nrm).count() >= 3);
+            return (0..n).any(|j| (0..n).filter(|i| (r.d[*i] - r.d[j]).hypot(r.e[*i] - r.e[j]) <= 0.05 * nrm).count() >= 2);
         }
     }
     false
@@ -503,8 +504,8 @@ fn oracle_gen(out: &mut Out, cal: &mut Calib, rows: &Mat, f32m: bool, family: &s
     let input = input_json("gen", family, &a, f32m, info);
     match run_evd(&a, false, f32m) {
         Err(msg) => {
-            if msg == "panic: Too many iterations in hqr" && info.mult >= 3 && near_multiple_eigenvalue(&a, f32m) {
-                finding(out, "hqr-no-convergence-multiple-eigenvalue", "evd(false) panicked 'Too many iterations in hqr' on a matrix constructed with an eigenvalue of algebraic multiplicity >= 3");
+            if msg == "panic: Too many iterations in hqr" && info.mult >= 2 && near_multiple_eigenvalue(&a, f32m) {
+                finding(out, "hqr-no-convergence-multiple-eigenvalue", "evd(false) panicked 'Too many iterations in hqr' on a matrix constructed with a repeated (defective) eigenvalue");
                 return None;
             }
             out.fail("evd_gen", &format!("evd(false) did not return a decomposition: {}", msg), input);
@@ -1016,8 +1017,11 @@ fn gen_gen(rng: &mut Rng, family: &str, n: usize, f32m: bool) -> (Mat, Option<Ve
         _ => {
             // upper Hessenberg, some sub-diagonal entries zero or tiny (deflation tests of hqr2),
             // sometimes with a zero diagonal (the `s == 0 -> anorm` branch of the deflation test)
+            // (continuous entries there: an unreduced integer Hessenberg block with zero diagonal tends to have
+            // an exactly repeated, hence defective, eigenvalue - an instance of the known finding)
             let mut a = rand_mat(rng, n, n);
             if rng.chance(0.3) {
+                a = (0..n).map(|_| (0..n).map(|_| rng.uniform(-1.0, 1.0)).collect()).collect();
                 for i in 0..n {
                     a[i][i] = 0.0;
                 }
